@@ -36,20 +36,6 @@ fn candidates(c: &Case) -> Vec<Case> {
                 .iter()
                 .filter_map(|f| fix(f.step).map(|s| IoFaultSpec { step: s, ..f.clone() }))
                 .collect();
-            d.corruptions = d
-                .corruptions
-                .iter()
-                .map(|f| Corruption {
-                    before_step: if f.before_step >= end {
-                        f.before_step - removed
-                    } else if f.before_step > start {
-                        start
-                    } else {
-                        f.before_step
-                    },
-                    ..f.clone()
-                })
-                .collect();
             if !d.steps.is_empty() || d.sessions.iter().any(|s| !s.is_empty()) {
                 out.push(d);
             }
